@@ -269,6 +269,34 @@ pub fn observe(ex: &mut Exec, bytes: &[u8], pws: &[Vec<u8>], max_entries: usize)
     }
 }
 
+/// the extra-data records formed by `b` (canonical TLV walk; the last token may be truncated);
+/// buffers beyond what any extra field can hold are presented as one over-long token
+fn tokens_of(b: &[u8], total: u64) -> Value {
+    if total > 70_000 || b.len() as u64 != total {
+        return json!([{"id": 0, "dsz": 0, "asz": (total.min(2147483000)) - 4, "hl": 4, "h": "huge"}]);
+    }
+    let mut out = vec![];
+    let mut o = 0usize;
+    while o < b.len() {
+        let left = b.len() - o;
+        if left < 4 {
+            out.push(json!({"id": 0, "dsz": 0, "asz": 0, "hl": left, "h": hid(&b[o..])}));
+            break;
+        }
+        let id = u16::from_le_bytes([b[o], b[o + 1]]) as u64;
+        let dsz = u16::from_le_bytes([b[o + 2], b[o + 3]]) as usize;
+        let asz = dsz.min(left - 4);
+        out.push(json!({"id": id, "dsz": dsz, "asz": asz, "hl": 4, "h": hid(&b[o + 4..o + 4 + asz])}));
+        o += 4 + asz;
+        if out.len() > 200 {
+            // (the generators never build more than a few dozen records; ordinary payload bytes
+            //  written in data mode do not need a faithful record view)
+            return json!([{"id": 0, "dsz": 0, "asz": (total.min(2147483000)) - 4, "hl": 4, "h": "huge"}]);
+        }
+    }
+    json!(out)
+}
+
 fn extra_bytes(recs: &Value) -> (Vec<u8>, Vec<Value>) {
     let mut out = vec![];
     let mut toks = vec![];
@@ -301,6 +329,8 @@ pub fn run_scenario(sc: &Value) -> Vec<Value> {
     // per-entry accumulator of accepted bytes (harness side, independent CRC)
     let mut acc_len = 0u64;
     let mut acc_crc = Crc::new();
+    // the same bytes kept (up to a cap) so that they can be presented as extra-data records
+    let mut acc_bytes: Vec<u8> = vec![];
     let max_entries = sc.get("max_entries").and_then(|x| x.as_u64()).unwrap_or(40) as usize;
     if let Some(s) = sc.get("short_w") {
         let _ = s;
@@ -314,6 +344,18 @@ pub fn run_scenario(sc: &Value) -> Vec<Value> {
                 apply_sink_opts(&sink, sc);
                 writer = Some(ManuallyDrop::new(ZipWriter::new(sink.clone())));
                 let m = base_event("New", &json!("ok"), "", &sink);
+                ex.ev(m);
+            }
+            "Compare" => {
+                let (a, b) = (op["a"].as_u64().unwrap_or(0) as usize, op["b"].as_u64().unwrap_or(1) as usize);
+                let mut m = Map::new();
+                m.insert("ev".into(), json!("Compare"));
+                let eq = match (archives.get(a), archives.get(b)) {
+                    (Some(x), Some(y)) => x == y,
+                    _ => false,
+                };
+                m.insert("eq".into(), json!(eq));
+                m.insert("have".into(), json!(archives.len()));
                 ex.ev(m);
             }
             "NewAppend" => {
@@ -335,6 +377,7 @@ pub fn run_scenario(sc: &Value) -> Vec<Value> {
                 ex.ev(m);
             }
             _ => {
+                let pos_before = sink.pos();
                 let w = match writer.as_mut() {
                     Some(w) => w,
                     None => {
@@ -382,14 +425,19 @@ pub fn run_scenario(sc: &Value) -> Vec<Value> {
                                 }
                             }
                         }));
-                        acc_len = 0;
-                        acc_crc = Crc::new();
                         let (rj, msg) = res_json(&r);
+                        if rj == json!("ok") || sink.pos() != pos_before {
+                            acc_len = 0;
+                            acc_crc = Crc::new();
+                            acc_bytes.clear();
+                        }
                         let mut m = base_event(name, &rj, &msg, &sink);
                         m.insert("name".into(), abs_name(nm.as_bytes()));
                         m.insert("o".into(), oabs);
                         m.insert("align".into(), json!(align));
                         m.insert("ret".into(), json!(ret.min(2147483647)));
+                        let padh = if ret >= 4 { hid(&vec![0u8; (ret - 4) as usize]) } else { String::new() };
+                        m.insert("padh".into(), json!(padh));
                         // hash of a pad body of every possible length is the hash of zeros: log the
                         // one the spec needs (pad length is computed by the spec; harness offers a table)
                         ex.ev(m);
@@ -399,6 +447,7 @@ pub fn run_scenario(sc: &Value) -> Vec<Value> {
                         let split = op.get("split").and_then(|x| x.as_u64()).unwrap_or(0) as usize;
                         let mut k = 0usize;
                         let mut calls = 0u64;
+                        let m_xacc;
                         let r = catch_unwind(AssertUnwindSafe(|| -> Result<(), String> {
                             if data.is_empty() {
                                 calls += 1;
@@ -420,20 +469,43 @@ pub fn run_scenario(sc: &Value) -> Vec<Value> {
                         // absorbed; the spec only needs the count of bytes whose writes returned Ok
                         acc_len += k as u64;
                         acc_crc.update(&data[..k]);
+                        if acc_bytes.len() < 200_000 {
+                            acc_bytes.extend_from_slice(&data[..k.min(200_000)]);
+                        }
+                        m_xacc = tokens_of(&acc_bytes, acc_len);
                         let mut m = base_event("Write", &rj, &msg, &sink);
                         m.insert("n".into(), json!(data.len()));
                         m.insert("k".into(), json!(k));
                         m.insert("calls".into(), json!(calls));
+                        m.insert("xacc".into(), m_xacc);
                         m.insert("acc".into(), json!({"len": acc_len.min(2147483647), "crc": hex32(acc_crc.finish())}));
                         ex.ev(m);
                     }
                     "WriteExtra" => {
                         let (bytes, toks) = extra_bytes(&op["recs"]);
-                        let r = catch_unwind(AssertUnwindSafe(|| w.write_all(&bytes).map_err(|e| e.to_string())));
+                        let r = catch_unwind(AssertUnwindSafe(|| {
+                            if bytes.is_empty() {
+                                w.write(&bytes).map(|_| ())
+                            } else {
+                                w.write_all(&bytes)
+                            }
+                            .map_err(|e| e.to_string())
+                        }));
                         let (rj, msg) = res_json(&r);
+                        if rj == json!("ok") {
+                            acc_len += bytes.len() as u64;
+                            acc_crc.update(&bytes);
+                            if acc_bytes.len() < 200_000 {
+                                acc_bytes.extend_from_slice(&bytes);
+                            }
+                        }
+                        let _ = toks;
+                        let toks = tokens_of(&acc_bytes, acc_len);
                         let mut m = base_event("WriteExtra", &rj, &msg, &sink);
-                        m.insert("toks".into(), json!(toks));
+                        m.insert("xacc".into(), toks);
                         m.insert("n".into(), json!(bytes.len()));
+                        m.insert("k".into(), json!(if rj == json!("ok") { bytes.len() } else { 0 }));
+                        m.insert("acc".into(), json!({"len": acc_len.min(2147483647), "crc": hex32(acc_crc.finish())}));
                         ex.ev(m);
                     }
                     "EndExtra" | "EndLocalStartCentral" => {
@@ -444,6 +516,11 @@ pub fn run_scenario(sc: &Value) -> Vec<Value> {
                             Ok(())
                         }));
                         let (rj, msg) = res_json(&r);
+                        if rj == json!("ok") {
+                            acc_len = 0;
+                            acc_crc = Crc::new();
+                            acc_bytes.clear();
+                        }
                         let mut m = base_event(name, &rj, &msg, &sink);
                         m.insert("ret".into(), json!(ret.min(2147483647)));
                         ex.ev(m);
@@ -457,9 +534,12 @@ pub fn run_scenario(sc: &Value) -> Vec<Value> {
                             if name == "AddDir" { w.add_directory(nmc, fo) } else { w.add_symlink(nmc, tgc, fo) }
                                 .map_err(|e| e.to_string())
                         }));
-                        acc_len = 0;
-                        acc_crc = Crc::new();
                         let (rj, msg) = res_json(&r);
+                        if rj == json!("ok") || sink.pos() != pos_before {
+                            acc_len = 0;
+                            acc_crc = Crc::new();
+                            acc_bytes.clear();
+                        }
                         let mut m = base_event(name, &rj, &msg, &sink);
                         m.insert("name".into(), abs_name(nm.as_bytes()));
                         let mut dn = nm.clone().into_bytes();
@@ -490,9 +570,12 @@ pub fn run_scenario(sc: &Value) -> Vec<Value> {
                             }
                             .map_err(|e| e.to_string())
                         }));
-                        acc_len = 0;
-                        acc_crc = Crc::new();
                         let (rj, msg) = res_json(&r);
+                        if rj == json!("ok") || sink.pos() != pos_before {
+                            acc_len = 0;
+                            acc_crc = Crc::new();
+                            acc_bytes.clear();
+                        }
                         let mut m = base_event("RawCopy", &rj, &msg, &sink);
                         m.insert("src".into(), Value::Object(view));
                         let has = rename.is_some();
